@@ -54,6 +54,8 @@ theorem isResultOfOpCode_unknown (c : Int) (l0 l1 : Loc3) (h : Op.ofCode c = non
         · simp [h1, h2, h3, h4] at h
         · simp [h1, h2, h3, h4]
 
+example : isResultOfOp .diff .I .B = false ∧ isResultOfOp .diff .B .E = true ∧ isResultOfOp .symdiff .B .B = false := by decide
+
 theorem ofCode_code (op : Op) : Op.ofCode op.code = some op := by cases op <;> decide
 
 /-- `OverlayUtil::resultDimension`: intersection = min, union = max, difference = dimension of A, symmetric
@@ -196,6 +198,12 @@ theorem node_expected_of_incident (op : Op) (A B R : Flat) (cs : List Cell) (v :
   have : (cs.filter (fun c => c.a == v || c.b == v)).any (·.expected op) = true :=
     List.any_eq_true.mpr ⟨c, hmem, he⟩
   simp [mkNode, this]
+
+/-- non-vacuity / the closure matters for difference: a 1-cell of a line of B strictly inside the area A is not in
+`A ∖ B` pointwise, but it is in the closure (area − line = area), while for a line A inside an area B nothing remains -/
+example : let c : Cell := { a := ⟨0,0,1⟩, b := ⟨2,0,1⟩, m := ⟨1,0,1⟩, s := ⟨⟨0,0⟩,⟨2,0⟩⟩, lm := ⟨1,2⟩, lA := true, rA := true,
+                            lB := false, rB := false, lR := true, rR := true, onA := false, onB := true, onR := false }
+    c.sMem .diff = false ∧ c.expected .diff = true ∧ c.ok .diff = true ∧ c.ok .inter = false := by decide
 
 /-- exchanging the roles of A and B -/
 def Cell.swap (c : Cell) : Cell :=
